@@ -8,3 +8,4 @@ INVARIANT WellFormedIsDecoded
 INVARIANT AbsurdCountIsRejected
 INVARIANT Aligned
 INVARIANT PortRule
+INVARIANT EmitCase
